@@ -356,6 +356,7 @@ pub fn run(ctx: &Ctx) {
         space.push(gen::sharing_case(4, idx));
         idx += stride * 7 + 1; // coprime walk over the space
     }
+    space.extend(gen::many_and_sized_packets().into_iter().filter(|p| p.encode(0).len() <= 2100));
     for (o, v) in [(16380usize, 0usize), (16384, 1), (16390, 2)] {
         space.push(gen::straddle_packet(o, v));
     }
